@@ -654,7 +654,9 @@ impl<A: OneshotApi> World for OneshotWorld<A> {
 fn draw_cfg(rng: &mut Rng) -> Cfg {
     let mut c = Cfg::new();
     c.insert("flavour".into(), rng.below(NFLAV as u64) as i64);
-    c.insert("k".into(), rng.range(1, 5));
+    // live futures: mostly few (small joint states recur), sometimes many (batch loops, deep heaps / queues)
+    let k = if rng.pct(88) { rng.range(1, 5) } else { *rng.pick(&[7i64, 10]) };
+    c.insert("k".into(), k);
     c.insert("len".into(), rng.range(6, 48));
     c.insert("realism".into(), *rng.pick(&[10, 50, 90]));
     c.insert("observer".into(), rng.pct(80) as i64);
